@@ -2,8 +2,9 @@
 // with props/C11/univ_test.go which documents the type / value grammar).
 //
 // inputs:
-//   dec <kind> <type> <hex bytes>     decode the bytes into a fresh destination of the described Go
-//                                     type with scale.NewDecoder(bytes.NewBuffer(b)).Decode
+//   dec <kind> <type> <hex bytes> [<dirt>]   decode the bytes into a fresh destination of the described Go
+//                                     type with scale.NewDecoder(bytes.NewBuffer(b)).Decode; with the fourth
+//                                     field the destination already holds the value <dirt> (kind dirty)
 //       kind (how the generator made the bytes; a coverage tag only): valid trail trunc flip
 //       subst rand noncanon hostile mapdup bigvalid
 // observables:
@@ -291,6 +292,34 @@ func c12Gen(r *vu.RNG, n int, emit func(string)) {
 	c12Emit(emit, "mapdup", "map(u8,u8)", []byte{0x08, 1, 1, 1, 2})
 	c12Emit(emit, "mapdup", "map(u8,u8)", []byte{0x08, 2, 1, 1, 2})
 	c12Emit(emit, "mapdup", "map(u8,u8)", []byte{0x08, 1, 1, 2, 2})
+	// reused destinations (the result must not depend on what the destination held)
+	emit("dec dirty opt(u16) 00 S7")
+	emit("dec dirty opt(u16) 010500 S7")
+	emit("dec dirty st(_:bytes,_:opt(str),_:uint) 000000 [010203,S616263,7]")
+	emit("dec dirty sl(opt(u64)) 0400 [S1,S2,S3]")
+	emit("dec dirty sl(u16) 00 [1,2,3]")
+	emit("dec dirty arr(2,opt(bool)) 000100 [St,St]")
+	emit("dec dirty st(_:res(u8,bool),_:u16) 01010000 [U,7]")
+	emit("dec dirty " + svuEnumC + " 0900 V9:S5")
+	emit("dec dirty bytes 00 aabbcc")
+	emit("dec dirty big 00 ffffffffffffffffffff")
+	emit("dec dirty opt(bytes) 00 Saabb")
+	emit("dec dirty st(_:u8,_:u16,_:u32) 01 [9,9,9]") // truncated: fails whatever the destination held
+	// finding dirty-nested-option: Some into a destination holding Some of a pointer-represented type
+	emit("dec dirty opt(opt(u16)) 01010500 SN")    // panics
+	emit("dec dirty opt(opt(u16)) 01010500 SS7")   // decodes the u16 from the inner option byte
+	emit("dec dirty opt(big) 0114 S4d")            // keeps 0x4d, consumes one byte
+	emit("dec dirty opt(u128) 0101000000000000000000000000000000 S7")
+	// maps with two entries in ascending / equal / descending key order, every map type of the table
+	for _, d := range svuTable {
+		t := svuParseTy(d)
+		if t.kind != svuMap {
+			continue
+		}
+		for i := 0; i < 8; i++ {
+			c12MapDup(r, emit, d, t)
+		}
+	}
 	c12Emit(emit, "rand", "bool", []byte{2})
 	c12Emit(emit, "rand", "opt(u8)", []byte{2, 0})
 	c12Emit(emit, "rand", "res(u8,u8)", []byte{2, 0})
@@ -406,21 +435,46 @@ func c12Gen(r *vu.RNG, n int, emit func(string)) {
 				p := r.Intn(len(enc))
 				c12Emit(emit, "hostile", d, append(append(append([]byte{}, enc[:p]...), pre...), tail...))
 			}
-		default: // maps with duplicate / descending keys
-			if t.kind == svuMap && t.b.kind == svuPrim && t.b.prim == "u8" {
-				k1 := svuBuild(t.a, vu.X(uint64(r.Intn(4))))
-				k2 := svuBuild(t.a, vu.X(uint64(r.Intn(4))))
-				e1, _ := Marshal(k1.Interface())
-				e2, _ := Marshal(k2.Interface())
-				b := []byte{8}
-				b = append(append(b, e1...), byte(r.Intn(3)))
-				b = append(append(b, e2...), byte(r.Intn(3)))
-				c12Emit(emit, "mapdup", d, b)
+		default: // maps with duplicate / descending keys; decoding into a reused destination
+			if t.kind == svuMap {
+				c12MapDup(r, emit, d, t)
 			} else if len(enc) > 0 {
-				c12Emit(emit, "trunc", d, enc[:len(enc)-1])
+				db := 60
+				dirt := svuGenDirt(r, t, &db)
+				b := enc
+				if r.Chance(1, 4) {
+					b = enc[:r.Intn(len(enc))]
+				}
+				if c12MaxDeclared(t, b) <= 1<<20 {
+					emit("dec dirty " + d + " " + vu.Hex(b) + " " + dirt)
+				}
 			}
 		}
 	}
+}
+
+// c12MapDup emits a two-entry map encoding whose keys come from a small range, in any order
+// (ascending = canonical, equal = duplicate, descending), for any map type.
+func c12MapDup(r *vu.RNG, emit func(string), d string, t *svuTy) {
+	b := []byte{8}
+	for i := 0; i < 2; i++ {
+		k := svuBuild(t.a, vu.X(uint64(r.Intn(3))))
+		ek, err := Marshal(k.Interface())
+		if err != nil {
+			return
+		}
+		budget := 20
+		v := svuBuild(t.b, svuGenVal(r, t.b, &budget))
+		if c11HasNilVDTOption(t.b, v) {
+			return
+		}
+		ev, err := Marshal(v.Interface())
+		if err != nil {
+			return
+		}
+		b = append(append(b, ek...), ev...)
+	}
+	c12Emit(emit, "mapdup", d, b)
 }
 
 // Marshal panics on a nil pointer to a VaryingDataType on the pinned tree (C11 nil-option); the
@@ -439,13 +493,17 @@ func c12AllocBytes() uint64 {
 
 func c12Run(in string) string {
 	f := strings.Split(in, " ")
-	if len(f) != 4 || f[0] != "dec" {
+	if (len(f) != 4 && len(f) != 5) || f[0] != "dec" {
 		return "err:badinput"
 	}
 	t := svuParseTy(f[2])
 	data := vu.UnHex(f[3])
 	dst := reflect.New(t.gt)
-	dst.Elem().Set(svuFresh(t))
+	if len(f) == 5 {
+		dst.Elem().Set(svuBuild(t, f[4]))
+	} else {
+		dst.Elem().Set(svuFresh(t))
+	}
 	buf := bytes.NewBuffer(data)
 	dec := NewDecoder(buf)
 	before := c12AllocBytes()
